@@ -77,6 +77,8 @@ def gen_cases(tier, seed):
     for fam in FAMILIES:
         for i in range(n):
             yield {'family': fam, 'idx': i, 'seed': seed}
+    for i in range(4):
+        yield {'family': 'legacy_encoding', 'idx': i, 'seed': seed}
 
 
 def write_csv(path, header, rows, lineterminator, delimiter=','):
@@ -101,6 +103,8 @@ def run_case(case):
     viol = []
     if fam == 'package':
         return run_package(case, rng, d, counters, cov, viol)
+    if fam == 'legacy_encoding':
+        return run_legacy_encoding(case, rng, d, counters, cov, viol)
     if fam == 'cast_strings' and case['idx'] % 3 == 0:
         return run_typed_source_strings(case, rng, d, counters, cov, viol)
     ncols = rng.randint(1, 6)
@@ -379,6 +383,37 @@ def run_case(case):
     return dict(nontrivial=len(exp) > 0, violations=viol, cov=cov, counters=counters, sample=sample)
 
 
+LEGACY = {
+    'shift_jis': ['東京都新宿区西新宿', '大阪府大阪市北区梅田', 'これは日本語のテキストです', '私は学生です。よろしくお願いします'],
+    'euc_kr': ['서울특별시 강남구 테헤란로', '부산광역시 해운대구', '이것은 한국어 텍스트입니다', '오늘 날씨가 좋습니다'],
+}
+
+
+def run_legacy_encoding(case, rng, d, counters, cov, viol):
+    """A csv file in a legacy multi-byte encoding, no encoding option: the detection recognises it (and a UTF-8 control of
+    the same table loads the same rows)."""
+    enc = ['shift_jis', 'euc_kr'][case['idx'] % 2]
+    n = [100, 40][(case['idx'] // 2) % 2]
+    values = LEGACY[enc]
+    rows = [dict(id=str(i), address=values[i % 4], note=values[(i + 1) % 4]) for i in range(n)]
+    text = 'id,address,note\n' + ''.join('%(id)s,"%(address)s","%(note)s"\n' % r for r in rows)
+    cfg = {'family': 'legacy_encoding', 'encoding': enc, 'nrows': n}
+    cov['options']['legacy_encoding/%s/%d' % (enc, n)] = 1
+    for label, codec in (('utf8_control', 'utf-8'), ('legacy', enc)):
+        path = '%s_%s.csv' % (label, enc)
+        with open(path, 'wb') as f:
+            f.write(text.encode(codec))
+        got = lab.run([d.load(path, infer_strategy=d.load.INFER_STRINGS)], validate=True)
+        counters['cells_compared'] += 3 * n
+        if not got.ok:
+            viol.append({'kind': 'unexpected_error', 'mech': 'legacy_encoding/%s/failed' % label, 'config': cfg,
+                         'msg': '%r: the %s file failed to load: %s' % (cfg, label, got.errstr()[-200:])})
+        elif lab.rows_diff(rows, got.results[0]):
+            viol.append({'kind': 'rows', 'mech': 'legacy_encoding/%s/rows' % label, 'config': cfg,
+                         'msg': '%r: %s file: %s' % (cfg, label, lab.rows_diff(rows, got.results[0], 1)[0][:300])})
+    return dict(nontrivial=True, violations=viol, cov=cov, counters=counters, sample={'config': cfg})
+
+
 def run_package(case, rng, d, counters, cov, viol):
     """load from a data package on disk and from a (descriptor, iterators) pair x selector forms."""
     names = rng.sample(['a', 'ab', 'abc', 'a.b', 'axb', 'b'], rng.randint(1, 4))
@@ -410,11 +445,37 @@ def run_package(case, rng, d, counters, cov, viol):
         with boot.quiet():
             d.Flow(*srcs, d.dump_to_zip('pk.zip')).process()
         step = d.load('pk.zip', format='datapackage', resources=copy.deepcopy(selector), **skw)
-    got = lab.run([step], via='datastream') if strat else lab.run([step], validate=True)
+    # the flow already holds a resource under the name of one of the selected resources: the loaded one gets a free
+    # name - and still its own rows, as do the resources after it
+    taken = None
+    pre = []
+    if want and boot.rng(case['seed'], 'C13', 'taken', case['idx']).random() < 0.3:
+        taken = rng.choice(want)
+        pre = [lab.source(taken, [{'name': 'z', 'type': 'integer'}], [{'z': 1}, {'z': 2}])]
+        cfg['name_already_taken_in_the_flow'] = taken
+        cov['options']['package/%s/name_already_taken' % kind] = 1
+    got = lab.run(pre + [step], via='datastream') if strat else lab.run(pre + [step], validate=True)
 
     def add(kind_, msg):
-        viol.append({'kind': kind_, 'mech': 'package/' + kind + ('/' + strat if strat else ''),
+        viol.append({'kind': kind_, 'mech': 'package/' + kind + ('/' + strat if strat else '') +
+                     ('/name_taken' if taken else ''),
                      'msg': '%r: %s' % (cfg, msg), 'config': cfg})
+    if taken and got.ok:
+        # judged by position: [the resource that was there] + the selected ones in package order
+        if len(got.names) != len(want) + 1 or got.names[0] != taken or len(set(got.names)) != len(got.names) or \
+                [n for n in got.names[1:] if n in want and n != taken] != [n for n in want if n != taken]:
+            add('resource_selection', 'with %r already in the flow: resources %r, expected %r + %r (the clashing one under a '
+                'free name)' % (taken, got.names, [taken], want))
+        else:
+            for n, rws in zip(want, got.results[1:]):
+                counters['cells_compared'] += 2 * len(rws)
+                want_rows = tables[n]
+                if strat and strat.endswith('+strings'):
+                    want_rows = [{k: str(v) for k, v in r.items()} for r in tables[n]]
+                if lab.rows_diff(want_rows, rws):
+                    add('rows', 'resource %s (position %d): %s' % (n, want.index(n) + 1, lab.rows_diff(want_rows, rws)))
+        return dict(nontrivial=any(tables[n] for n in want), violations=viol, cov=cov, counters=counters,
+                    sample={'config': cfg})
     if not got.ok:
         if want:
             add('unexpected_error', got.errstr())
